@@ -235,7 +235,18 @@ def main(mod):
             ctx.driver = build.build_for(prop, getattr(mod, 'DRIVER_PROP', None))
         except build.BuildError as e:
             print("build failed: %s" % e.stage)
-            return 2
+            if e.stage != "gen_consts":
+                return 2
+            # same fallback as in a full run: the committed constants stand in, the stored input is still replayed
+            try:
+                with build.Lock():
+                    dp = getattr(mod, "DRIVER_PROP", None) or prop
+                    if os.path.exists(os.path.join(COQ, "Extract", "%s_extract.v" % dp)):
+                        build.coq_make(["Extract/%s_extract.vo" % dp])
+                        ctx.driver = build.build_driver(dp)
+            except build.BuildError as e2:
+                print("build with the committed constants failed: %s" % e2.stage)
+                return 2
         r = mod.replay(ctx, rp)
         print("replay result:", r)
         return 1 if r else 0
@@ -256,6 +267,24 @@ def main(mod):
                 proof["ok"] = False
                 proof["failed_theorem"] = "(coqchk)"
                 proof["log"] = chk["log"]
+    elif build_error["stage"] == "gen_consts":
+        # A constant could not be extracted from the sources: the tie between model and code is broken and is reported
+        # below, as ever.  gen_consts.py has put the COMMITTED value of that constant in its place (when it has one), so
+        # the model and the proofs are built with it and the correspondence still searches for a failing input: if it
+        # finds one the run reports that input, otherwise the broken tie alone (no-failing-input-found).
+        ctx.notes.append("constants: %s" % build_error["log"].strip()[-600:])
+        try:
+            with build.Lock():
+                build.scan_forbidden()
+                dp = getattr(mod, "DRIVER_PROP", None) or prop
+                has_ext = os.path.exists(os.path.join(COQ, "Extract", "%s_extract.v" % dp))
+                build.coq_make(["Props/%s.vo" % prop] + (["Extract/%s_extract.vo" % dp] if has_ext else []))
+                if has_ext:
+                    ctx.driver = build.build_driver(dp)
+            proof = check_proofs(prop)
+            ctx.proof = proof
+        except build.BuildError as e2:
+            ctx.notes.append("build with the committed constants failed at: %s" % e2.stage)
     else:
         # model may still be runnable even if a proof broke: try to get the driver alone
         try:
